@@ -1,5 +1,101 @@
-From Coq Require Import ZArith QArith List Bool.
+(* C06 — Quaver .qua read/write.  Property theorems only: each is closed by [exact] from Proofs/QuaProofs.v
+   (or by vm_compute for table obligations and concrete witnesses re-checked against the live tables).
+
+   Full statement aimed at (DESIGN 4/C06), NOT proved in this generality:
+     qua_read_denotes  : forall doc, wf_docb doc = true -> guard doc -> read_specb doc (Live.read doc) = true
+     qua_write_denotes : forall c, wf_chartb false c = true -> write_specb c (Live.write c) = true   (incl. qua_write_wf)
+     and the two round trips.
+   What is proved for all inputs: the oracle's soundness (a `true` of the boolean oracles evaluated on the
+   implementation's outputs really is the declarative statement), truncation < 1 ms and its idempotence (no drift),
+   the Tags split/join laws, the hit writer pipeline on lists with the declared columns in declared order (any number
+   of rows, any cells), the hold end-time cell law, the timing-point / scroll-velocity reader per record.
+   Missing (hence _partial): invariance of the DataFrame pipelines under column order and the assembly of the
+   sections into the whole-document statement; these are covered by the per-run correspondence only. *)
+From Coq Require Import ZArith QArith Qabs List Bool.
 From RV Require Import Base.PyNum Formats.Qua Formats.QuaSpec Generated.Tables Proofs.QuaProofs.
 Import ListNotations.
+Open Scope Z_scope.
+
+(* format-fact table: the 21 metadata keys written by the live QuaMapMeta._write_meta, with the declared types of the
+   live dataclass, are the reference table of the specification *)
 Theorem C06_meta_table_is_reference : Tables.c06.meta_table = ref_meta_table.
 Proof. vm_compute. reflexivity. Qed.
+Theorem C06_meta_defaults_keys : map fst Tables.c06.meta_defaults = map fst ref_meta_table.
+Proof. vm_compute. reflexivity. Qed.
+
+(* oracle soundness: what a `true` of the oracles used in Corr/RunC06.v means *)
+Theorem C06_read_oracle_sound : forall doc out, read_specb doc out = true -> ReadSpec doc out.
+Proof. exact read_specb_sound. Qed.
+Theorem C06_write_oracle_sound : forall c out, write_specb c out = true -> WriteSpec c out.
+Proof. exact write_specb_sound. Qed.
+Theorem C06_write_read_oracle_sound : forall c out, wr_specb c out = true -> WriteReadSpec c out.
+Proof. exact wr_specb_sound. Qed.
+
+(* times move by less than 1 ms when written, and not at all the second time *)
+Theorem C06_written_time_within_1ms : forall v q, num v = Some q ->
+  exists z, cast_int v = Some (YInt z) /\ lt1 (inject_Z z) q = true.
+Proof. exact cast_int_close. Qed.
+Theorem C06_hold_end_within_1ms : forall o ln qo ql, num o = Some qo -> num ln = Some ql ->
+  exists v z, cell_add o ln = Some v /\ cast_int v = Some (YInt z) /\ lt1 (inject_Z z) (qo + ql)%Q = true.
+Proof. exact hold_end_close. Qed.
+Theorem C06_no_drift_cell : forall v w, cast_int v = Some w -> cast_int w = Some w.
+Proof. exact cast_int_idem. Qed.
+
+(* Tags: the reader's split is the word list, and joining well-formed tags then splitting gives them back *)
+Theorem C06_tags_read_is_words : forall s, tags_of s = words s.
+Proof. exact tags_of_is_words. Qed.
+Theorem C06_tags_roundtrip : forall ts, forallb good_tag ts = true -> words (join_sp ts) = ts.
+Proof. exact words_join. Qed.
+
+(* writer, hits: for every list with the declared columns, one well-formed record per row denoting the row *)
+Theorem C06_write_hits_partial : forall l, forallb hit_ok l = true -> hits_to_yaml (canon_hits l) = Some (map hit_out l).
+Proof. exact hits_to_yaml_canonical. Qed.
+Theorem C06_written_hit_record_ok : forall x, hit_ok x = true ->
+  rec_okb note_keys (YMap (hit_out x)) = true /\
+  exists n n', note_denote (YMap (hit_out x)) = Some n /\ hit_row_denote (hit_row x) = Some n' /\ note_closeb n n' = true.
+Proof. exact hit_out_ok. Qed.
+
+(* reader, timing points and scroll velocities, per record, with the format's defaults *)
+Theorem C06_read_timing_point_partial : forall r p, point_denote K_Bpm 120%Q (YMap r) = Some p ->
+  point_row_denote N_bpm [(N_offset, getd K_StartTime (YInt 0) r); (N_bpm, getd K_Bpm (YInt 120) r); (N_metronome, YInt 4)] = Some p.
+Proof. exact read_bpm_row_denotes. Qed.
+Theorem C06_read_scroll_velocity_partial : forall r p, point_denote K_Multiplier 1%Q (YMap r) = Some p ->
+  point_row_denote N_multiplier [(N_offset, getd K_StartTime (YInt 0) r); (N_multiplier, getd K_Multiplier (YFloat 1) r)] = Some p.
+Proof. exact read_sv_row_denotes. Qed.
+
+(* the property as stated is FALSE of the faithful model (witnesses replayed on the implementation = the findings) *)
+Theorem C06_read_denotes_refuted : ~ (forall doc, wf_docb doc = true -> read_ok doc = true).
+Proof. exact qua_read_denotes_refuted. Qed.
+Theorem C06_read_omitted_keysounds_refuted :
+  wf_docb wit_omit_keysounds = true /\ read_ok wit_omit_keysounds = false /\ rw_ok wit_omit_keysounds = false.
+Proof. exact qua_read_omitted_keysounds_refuted. Qed.
+Theorem C06_read_hold_omitted_starttime_refuted :
+  wf_docb wit_hold_omit_start = true /\ read_ok wit_hold_omit_start = false /\ rw_ok wit_hold_omit_start = false.
+Proof. exact qua_read_hold_omitted_starttime_refuted. Qed.
+Theorem C06_read_holds_all_omit_starttime_refuted :
+  wf_docb wit_holds_all_omit_start = true /\ Live.read wit_holds_all_omit_start = None.
+Proof. exact qua_read_holds_all_omit_starttime_refuted. Qed.
+Theorem C06_read_all_omit_lane_refuted : wf_docb wit_all_omit_lane = true /\ Live.read wit_all_omit_lane = None.
+Proof. exact qua_read_all_omit_lane_refuted. Qed.
+Theorem C06_write_index_key_refuted :
+  wf_chartb true (wit_conv_chart true false) = true /\ write_ok (wit_conv_chart true false) = false.
+Proof. exact qua_write_index_key_refuted. Qed.
+Theorem C06_write_keysounds_nan_refuted :
+  wf_chartb true (wit_conv_chart false true) = true /\ write_ok (wit_conv_chart false true) = false.
+Proof. exact qua_write_keysounds_nan_refuted. Qed.
+Theorem C06_isv_default_refuted :
+  wf_docb wit_omit_isv = true /\
+  (has_type 2 (match assoc K_InitialScrollVelocity Live.meta_defaults with Some v => v | None => YNull end)
+   || negb (rw_ok wit_omit_isv)) = true.
+Proof. exact qua_isv_default_refuted. Qed.
+
+(* non-vacuity: inside the guards the whole pipeline satisfies the oracles on concrete non-trivial inputs *)
+Example C06_clean_document_ok :
+  wf_docb wit_clean = true /\ read_ok wit_clean = true /\ rw_ok wit_clean = true /\
+  (let w1 := Live.read wit_clean >>= Live.write in
+   match w1, w1 >>= Live.read >>= Live.write with Some a, Some b => tree_eqb true a b | _, _ => false end) = true.
+Proof. exact qua_clean_doc_ok. Qed.
+Example C06_clean_chart_ok :
+  let c := wit_conv_chart false false in
+  wf_chartb false c = true /\ write_ok c = true /\ wr_specb c (Live.write c >>= Live.read) = true.
+Proof. exact qua_write_clean_chart_ok. Qed.
